@@ -781,7 +781,9 @@ def canon_model(c, m):
 
 
 # ------------------------------------------------------------------ the property on the real observations
-SNIP = re.compile(r"^(\s*)(→ |> |  )\s*(\d+)(│|\|) (.*)$")
+# a numbered line of a snippet: an optional marker, the line number, one delimiter character, the source text (the arrow and
+# the bar are what the renderer uses today; any other marker / delimiter reads the same)
+SNIP = re.compile(r"^(\s*)([^\w\s]{1,2} |  )\s*(\d+)([^\w\s]) (.*)$")
 SGR = re.compile("\x1b\\[[0-9;]*m")
 
 
@@ -928,42 +930,42 @@ def oracle(c, o):
             herr, _ = stream_hypotheses(fl_["tok"])
             if herr:
                 return "token-stream-hypothesis-fails:" + herr
-    out = o["out"]
+    # What follows is the STATEMENT on the text that was written, decoded as leniently as the statement allows: the wording of
+    # headings ("Stack trace"), of the location line ("at file:line in function"), blank lines, what else the report says
+    # (solutions, the source line under a frame at -v, snippets under frames at debug) are not the property's business - the
+    # bytes are compared with the model, which is where such a change shows (as a divergence).
+    out, msg, name = o["out"], o["msg"], o["name"]
     if c["fmt"] == "ansi":
-        # decorated bytes: the tie compares them; the property is read on the undecorated text, which must be the same text
-        # (SGR sequences inside the message itself are removed on both sides)
-        if SGR.sub("", out) != SGR.sub("", o["plain_out"]):
-            return "decorated-text-differs-from-plain"
-        # ... and every clause below is then evaluated on that undecorated rendering of the same exception
-        out = o["plain_out"]
-    msg, name = o["msg"], o["name"]
+        # 'style markup aside': the clauses are read on the text without its SGR sequences (a message that holds such a
+        # sequence itself loses it on both sides)
+        out, msg = SGR.sub("", out), SGR.sub("", msg)
     strip_lines = lambda s: [l.rstrip(" ") for l in s.split("\n")]
     if c["simple"]:
         if o["msg_ok"] and strip_lines(out) != strip_lines(msg + "\n"):
             return "simple-report-is-not-the-message"
         return None
     lines = out.split("\n")
-    if not any(l.strip() == name.strip() for l in lines):
+    # contains the class name (outside the code it shows) ...
+    if not any(name.strip() in l for l in lines if not SNIP.match(l)):
         return "class-name-missing"
+    # ... and the message text: its lines, in this order, on consecutive lines of the report (whatever else stands on them)
     want = [l.strip(" ") for l in msg.split("\n")]
-    got = [l.strip(" ") for l in lines]
     # (an exception whose __str__ fails has no message text: the clause asks nothing of it - the report must still render)
-    if o["msg_ok"] and not any(got[i:i + len(want)] == want for i in range(len(got) - len(want) + 1)):
+    if o["msg_ok"] and not any(all(want[k] in lines[i + k] for k in range(len(want))) for i in range(len(lines) - len(want) + 1)):
         return "message-text-missing"
-    # what the solutions say is text too
-    squash = lambda t: " ".join(t.split())
-    flat = squash(out)
-    for t, d, ls in o["sols"]:
-        for piece in [t.rstrip(".")] + d.split("\n") + list(ls):
-            if squash(piece) and squash(piece) not in flat:
-                return "solution-text-missing"
-    # the snippet of the failing frame: the numbered lines after the last 'at file:line in function' line
+    # the snippet of the failing frame: the numbered lines after the last line that names the failing frame's line number and
+    # function; if no such line can be made out, the last run of numbered lines of the report
     last = o["frames"][-1]
-    at = [i for i, l in enumerate(lines) if l.startswith("  at ") and (":%d in " % last["lineno"]) in l]
-    if not at:
-        return "location-line-missing"
+    at = [i for i, l in enumerate(lines) if not SNIP.match(l) and re.search(r"(^|\D)%d(\D|$)" % last["lineno"], l) and last["func"].strip() in l]
+    start = None
+    if at:
+        start = at[-1] + 1
+    else:
+        runs = [i for i, l in enumerate(lines) if SNIP.match(l) and (i == 0 or not SNIP.match(lines[i - 1]))]
+        if runs:
+            start = runs[-1]
     block = []
-    for l in lines[at[-1] + 1:]:
+    for l in (lines[start:] if start is not None else []):
         m = SNIP.match(l)
         if not m:
             break
@@ -979,27 +981,19 @@ def oracle(c, o):
         return "snippet-missing"
     # the stack trace: frames under an ignored path only at debug verbosity; the others all listed
     verbose, debug = c["verb"] >= 1, c["verb"] >= 3
-    head = lines[:at[-1]]
-    listed = []
-    for l in head:
-        m = re.match(r"^\s+(\d+)  (.*):(\d+) in (.*)$", l)
-        if m:
-            listed.append((m.group(2).strip(), int(m.group(3)), m.group(4).strip()))
-    if verbose and not debug:
-        # under each listed frame: its source line, as it is
-        for i, l in enumerate(head):
-            m = re.match(r"^\s+(\d+)  (.*):(\d+) in (.*)$", l)
-            if m and i + 1 < len(head):
-                cands = [f for f in o["frames"] if f["lineno"] == int(m.group(3)) and f["func"].strip() == m.group(4).strip()]
-                if cands and not any(head[i + 1].strip() == f["line"].strip() for f in cands):
-                    return "frame-line-not-verbatim"
+    head = lines[:(start - 1 if at else start) if start is not None else len(lines)]
+    rel = lambda p: p.replace(o["cwd"] + os.path.sep, "").replace(o["home"] + os.path.sep, "~" + os.path.sep) if o["cwd"] != "/" else \
+        p.replace(o["home"] + os.path.sep, "~" + os.path.sep)
+    ident = lambda f: (rel(f["file"]).strip(), f["lineno"], f["func"].strip())
+
+    def names(l, f):
+        # a line of the listing names the frame f: its file (as the report abbreviates it), its line number, its function
+        fi_, ln_, fn_ = ident(f)
+        return (not SNIP.match(l)) and fi_ in l and fn_ in l and re.search(r"(^|\D)%d(\D|$)" % ln_, l) is not None
     if debug:
-        # under each listed frame: a snippet that numbers consecutively and marks that frame's line
+        # a snippet shown under a listed frame numbers consecutively and marks that frame's line (when there is one)
         for i, l in enumerate(head):
-            m = re.match(r"^\s+(\d+)  (.*):(\d+) in (.*)$", l)
-            if not m:
-                continue
-            cands = [f for f in o["frames"] if f["lineno"] == int(m.group(3)) and f["func"].strip() == m.group(4).strip()]
+            cands = [f for f in o["frames"][:-1] if names(l, f)]
             if not cands:
                 continue
             blk = []
@@ -1010,35 +1004,27 @@ def oracle(c, o):
                 blk.append((m2.group(2).strip() != "", int(m2.group(3)), m2.group(5)))
             fr = cands[0]
             fl2 = o["files"][fr["fi"]]
-            if blk:
+            if blk and len(set(ident(f) for f in cands)) == 1:
                 r = check_snippet(blk, fl2["text"], fl2["tok"], fr["lineno"], "stack-frame")
                 if r:
                     return r
-            elif fl2["text"] and isinstance(fl2["tok"], list) and 1 <= fr["lineno"] <= len(_src_lines(fl2["text"])):
-                return "snippet-missing:stack-frame"
-    rel = lambda p: p.replace(o["cwd"] + os.path.sep, "").replace(o["home"] + os.path.sep, "~" + os.path.sep) if o["cwd"] != "/" else \
-        p.replace(o["home"] + os.path.sep, "~" + os.path.sep)
-    stack = o["frames"][:-1]
     if not debug:
         stack_kept = [f for f in o["frames"] if not f["ignored"]]
         # every frame that is not ignored is listed, except the frame of the snippet (the last one: where it was raised)
         expect = [f for f in o["frames"][:-1] if not f["ignored"]] if verbose else []
         for f in o["frames"]:
-            if f["ignored"] and any(x == (rel(f["file"]).strip(), f["lineno"], f["func"].strip()) for x in listed) and \
-                    not any((g["file"], g["lineno"], g["func"]) == (f["file"], f["lineno"], f["func"]) for g in stack_kept):
+            if f["ignored"] and any(names(l, f) for l in head) and not any(ident(g) == ident(f) for g in stack_kept):
                 return "ignored-frame-listed"
     else:
-        expect = stack
+        expect = o["frames"][:-1]
     if verbose:
         for f in expect:
-            if (rel(f["file"]).strip(), f["lineno"], f["func"].strip()) not in listed:
+            if not any(names(l, f) for l in head):
                 if not debug and o["frames"][-1]["ignored"] and f is expect[-1]:
                     # known finding: the exception was raised INSIDE ignored code - the raising frame is filtered out, the
                     # listing then drops the last frame it is given (meant to be the snippet's), i.e. the caller's
                     return "caller-frame-lost-when-raised-in-ignored-code"
                 return "frame-missing-from-stack-trace"
-    elif listed:
-        return "stack-trace-at-normal-verbosity"
     return None
 
 
